@@ -52,6 +52,7 @@ def _parts(m):
 
 
 SPEC_FUNCS = {
+    "is_sm_subclass": lambda o: vbool(__import__("pyvc.engine", fromlist=["ISSUBCLASS"]).ISSUBCLASS(o.z, z3.Const("class.StateMachine", Ref))),
     "sm_has_attr": lambda n: vbool(_sm_has(n.z)),
     "sig_of": lambda f: vref(_sig_of(f.z), "Signature"),
     "is_state": lambda o: vbool(ISINSTANCE(o.z, CLS_STATE)),
@@ -78,7 +79,8 @@ CLASSES = {
     "_StateData": {"fields": {"name": "Str", "duration_attr": "Str", "expires": "Real", "ran": "Bool", "run": "Ref:RunFn", "must_finish": "Bool",
                               "?next_state": "Bool", "next_state": "Opt[StrOr:_State]", "start_time": "Real"}},
     "ClassObj": {"fields": {"__mro__": "Seq[Ref:ClassObj]", "__dict__": "Map[Str,Ref:_State]"}},
-    "OwnerCls": {"fields": {}},
+    "OwnerCls": {"fields": {"g_attrs": "Map[Str,Ref:DurTunable]"}},
+    "DurTunable": {"fields": {"g_default": "Real", "g_write": "Bool", "g_sub": "Str"}},
     "StateMachine": {"fields": {
         "_StateMachine__should_engage": "Bool", "_StateMachine__engaged": "Bool", "_StateMachine__states": "Map[Str,Ref:_StateData]",
         "_StateMachine__state": "Ref:_StateData", "_StateMachine__default_state": "Ref:_StateData", "_StateMachine__start": "Real",
@@ -169,6 +171,26 @@ CONTRACTS = {
         "note": "_get_class_members(type(self)): the member table (its contract is verified separately; members are non-None objects)",
     },
     "smdef.tunable": {"kind": "external", "params": {"default": "Seq[Str]", "subtable": "Str"}, "returns": "Ref:PyObj2", "ensures": {}, "note": "tunable(...) constructor (C09)"},
+    "smdef.getattr_owner": {"kind": "external", "params": {"owner": "Ref:OwnerCls", "name": "Str", "default": "py"}, "returns": "Ref:DurTunable",
+                            "ensures": {"class attribute or None": "result is (owner.g_attrs[name] if has(owner.g_attrs, name) else None)"}, "note": "getattr(owner, duration_attr, None)"},
+    "smdef.setattr_owner": {"kind": "external", "params": {"owner": "Ref:OwnerCls", "name": "Str", "value": "Ref:DurTunable"}, "modifies": ["owner.g_attrs"],
+                            "ensures": {"class attribute set": "has(owner.g_attrs, name) and owner.g_attrs[name] is value and forall(k, Str, implies(k != name, has(owner.g_attrs, k) == old(has(owner.g_attrs, k)) and owner.g_attrs[k] is old(owner.g_attrs[k])))"},
+                            "note": "setattr(owner, duration_attr, tunable(...))"},
+    "smdef.duration_tunable": {"kind": "external", "params": {"default": "Opt[Real]", "writeDefault": "Bool", "subtable": "Str"}, "returns": "Ref:DurTunable", "returns_fresh": True,
+                               "ensures": {"a new tunable with these settings": "result.g_default == unwrap(default) and result.g_write == writeDefault and result.g_sub == subtable"}, "note": "tunable(duration, writeDefault=False, subtable='state') (C09)"},
+    "_State.__set_name__": {
+        "receivers": ["_State"], "params": {"owner": "Ref:OwnerCls", "name": "Str"}, "raises": ["InvalidStateName", "TypeError"],
+        "requires": {"class being defined": "owner is not None"}, "modifies": ["owner.g_attrs"],
+        "ensures": {"C12.N1 a state is accepted only under its own name and only in a StateMachine subclass": "name == self.name and is_sm_subclass(owner)",
+                    "C12.N3 a timed state gets the tunable '<name>_duration' (default = the declared duration, writeDefault False, subtable 'state') unless the class already has one; nothing else on the class changes":
+                    "implies(self.duration is not None, has(owner.g_attrs, name + '_duration') and owner.g_attrs[name + '_duration'] is not None and "
+                    "(owner.g_attrs[name + '_duration'] is old(owner.g_attrs[name + '_duration']) if old(has(owner.g_attrs, name + '_duration') and owner.g_attrs[name + '_duration'] is not None) else "
+                    "(owner.g_attrs[name + '_duration'].g_default == unwrap(self.duration) and not owner.g_attrs[name + '_duration'].g_write and owner.g_attrs[name + '_duration'].g_sub == 'state'))) and "
+                    "forall(k, Str, implies(k != name + '_duration' or self.duration is None, has(owner.g_attrs, k) == old(has(owner.g_attrs, k)) and owner.g_attrs[k] is old(owner.g_attrs[k])))"},
+        "ensures_raise": {"C12.N2 InvalidStateName exactly for a state bound under another attribute name, TypeError exactly for a state defined outside a StateMachine":
+                          "(exc == 'InvalidStateName' and name != self.name) or (exc == 'TypeError' and name == self.name and not is_sm_subclass(owner))",
+                          "the class is untouched": "forall(k, Str, has(owner.g_attrs, k) == old(has(owner.g_attrs, k)) and owner.g_attrs[k] is old(owner.g_attrs[k]))"},
+    },
     "StateMachine._build_states": {
         "receivers": ["StateMachine"], "params": {}, "raises": True,
         "local_sorts": {"states": "Map[Str,Ref:_StateData]", "nt_names": "Seq[Str]", "nt_desc": "Seq[Str]"},
@@ -210,7 +232,8 @@ CONTRACTS = {
 CLASSES["PyObj2"] = {"fields": {}}
 MACROS["MEMBERS()"] = "g_members"
 NAMES = {"_get_class_members": ("contract", "smdef.members_of"), "tunable": ("contract", "smdef.tunable"), "eval": ("contract", "builtins.eval")}
-DYN_GETATTR = {("_State.__init__", "hasattr"): "smdef.hasattr_sm"}
+DYN_GETATTR = {("_State.__init__", "hasattr"): "smdef.hasattr_sm", ("_State.__set_name__", "getattr"): "smdef.getattr_owner", ("_State.__set_name__", "setattr"): "smdef.setattr_owner"}
+CALL_OVERRIDES = {("_State.__set_name__", "tunable"): "smdef.duration_tunable"}
 
 
 def _template_check(ctx):
@@ -263,6 +286,6 @@ STRUCTURAL = [
 ASSUMPTIONS = [
     "reflection externals: inspect.signature/getdoc, hasattr(StateMachine, name), class __mro__/__dict__, eval; Python's positional argument binding",
     "dict.update semantics (union, argument wins, existing keys keep their position, new keys in the argument's order)",
-    "class creation calls __set_name__ for every _State member (language rule); _State.__set_name__ is covered by the bounded stand-in only",
+    "class creation calls __set_name__ for every _State member (language rule); issubclass(owner, StateMachine) is the interpreter's class relation (uninterpreted)",
     "count_first/count_default/count_states are the recursive counting functions over the member table (definitional axioms)",
 ]
